@@ -206,7 +206,7 @@ func unmarshalEq(a, b any, path string) string {
 
 func c04Tier(tier string) int {
 	if tier == "thorough" {
-		return 2000000
+		return 10000000
 	}
 	return 250000
 }
